@@ -280,6 +280,24 @@ func TestVerif_C20(t *testing.T) {
 		})
 		r.Eval(true, "scripted", ws, wc, mode, len(script), side)
 	})
+	// (c) deterministic script: asymmetric peer transport parameters, late and stale limit
+	// raises, loss and PTO (zz_verif_util_scriptedlimits_test.go)
+	nsl := r.N(1500, 40000)
+	r.CasesParallel("scripted-limits", nsl, 0, func(c *verifrt.Case) {
+		res := vslRun(t, c.Rng, false, c.Violation, c.Describe)
+		r.Event("scripted_limit_runs", 1)
+		r.Event("scripted_stream_frames_checked", res.Frames)
+		r.Event("scripted_frames_ending_exactly_at_stream_limit", res.AtStreamLimit)
+		r.Event("scripted_frames_filling_connection_limit", res.AtConnLimit)
+		r.Event("scripted_limit_raises", res.Raises)
+		r.Event("scripted_stale_limit_frames", res.StaleRaises)
+		r.Event("scripted_packets_lost", res.Lost)
+		r.Event("scripted_timer_rounds", res.PTOs)
+		r.Eval(res.AtStreamLimit+res.AtConnLimit > 0, "vsl", res.Frames, res.Streams, res.AtStreamLimit, res.AtConnLimit, res.Raises, res.Lost)
+	})
+	r.Require("scripted_stream_frames_checked", 5000)
+	r.Require("scripted_frames_ending_exactly_at_stream_limit", 300)
+	r.Require("scripted_frames_filling_connection_limit", 300)
 	r.Require("stream_frames_checked", 1000)
 	r.Require("stream_frames_ending_exactly_at_a_limit", 20)
 	r.Require("max_updates_processed", 100)
